@@ -1,4 +1,5 @@
 import PprofVerif.Lemmas.GraphOrder
+import PprofVerif.Lemmas.SymIds
 import PprofVerif.Gen.Comparators
 import PprofVerif.Gen.MapRanges
 import PprofVerif.Spec.MapRangesExpected
@@ -293,5 +294,37 @@ theorem trim_orders_are_the_regenerated_ones :
 theorem trim_orders_covered :
     (PV.Trim.flatNameKeys, ScoreSrc.external "") ∈ nodeOrders ∧
     (PV.Trim.cumNameKeys, ScoreSrc.field .Cum) ∈ nodeOrders := by decide
+
+/-! ## function ids handed out by local symbolization
+
+`Model/SymIds.lean` mirrors `addFunction` in doLocalSymbolize: first-come numbering over the frames in
+PROCESSING order.  The harness ties it to the real symbolizer (ids and prof.Function order after
+`Symbolizer.Symbolize("local")` with a scripted ObjTool = `assign` over the frames taken in
+prof.Mapping / prof.Location / leaf-first order) and requires byte-identical serializations over
+repetitions whose per-mapping lookup latencies are permuted.  The numbering is a function of the
+processing order and of nothing else — and it does depend on that order, so the order must be the
+sequential one and not the order in which concurrently symbolized mappings complete. -/
+
+/-- every frame gets an id, in processing order (nothing is dropped or reordered) -/
+theorem symbolize_assign_keeps_frames (start : Nat) (ks : List Str) :
+    (PV.SymIds.assign start [] ks).map Prod.fst = ks := PV.SymIds.assign_keys start ks []
+
+/-- new ids are exactly `start+1 … start+|functions appended|` -/
+theorem symbolize_ids_dense (start : Nat) (ks : List Str) (p : Str × Nat)
+    (h : p ∈ PV.SymIds.assign start [] ks) :
+    start < p.2 ∧ p.2 ≤ start + (PV.SymIds.added [] ks).length :=
+  PV.SymIds.assign_ids_in_range start ks [] p h
+
+/-- the id of a function depends on the processing order: whichever of two distinct functions is
+reached first gets the smaller id — a symbolizer that processes mappings in completion order
+serializes differently from run to run -/
+theorem symbolize_ids_follow_processing_order (start : Nat) (a b : Str) (h : a ≠ b) :
+    PV.SymIds.assign start [] [a, b] = [(a, start + 1), (b, start + 2)] ∧
+    PV.SymIds.assign start [] [b, a] = [(b, start + 1), (a, start + 2)] := by
+  have h' : b ≠ a := fun e => h e.symm
+  simp [PV.SymIds.assign, PV.SymIds.indexOf, h, h']
+
+-- non-vacuity: repeated functions share an id
+example : PV.SymIds.assign 7 [] [[1], [2], [1]] = [([1], 8), ([2], 9), ([1], 8)] := by decide
 
 end PV.Props.C08
